@@ -103,6 +103,8 @@ def rng_ver(st):
 def install(reg, G):
     h5.install(reg)
     reg.globals['Path'] = Opaque('sink:path')
+    reg.globals['os'] = Opaque('sink:os')
+    reg.globals['copyfile'] = Opaque('sink:copyfile')
 
     def h5file(ex, st, args, kw, node):
         mode = args[1] if len(args) > 1 else 'r'
